@@ -33,6 +33,10 @@ META.update({
    detected_by={'C19': 'yes: 23 of 1200 runs (repeat_same_object on size)'}),
  'C20-c': dict(property='C20', file='groupby_lib/nanops.py: reduce_2d', needs='2-D input AND an explicit n_threads with 2 <= n_threads < number of rows/columns reduced AND per-slice results not all equal: results are returned round-robin interleaved',
    detected_by={'C20': 'yes: 511 of 10000 runs, 6 sites'}),
+ 'C13-d': dict(property='C13', file='groupby_lib/groupby/core.py: GroupBy.count_ikey (counts memoised for the last mask, keyed on the identity of the mask object)', needs='(1) a masked reduction other than size with mask object m that leaves some group empty, (2) the client refills m in place so that another set of groups is fully masked, (3) another masked reduction with the same object m: the observed groups of step 1 are reused',
+   detected_by={'C13': 'MISSED as generated before: pool masks were reused but never refilled. Every pool mask now has a second content of the same shape and the client refills the same object in place between calls. Now yes: 27 of 3000 runs, 9 sites'}),
+ 'C19-d': dict(property='C19', file='groupby_lib/util.py: _val_to_numpy (new zero-copy branch writing NaN into the null slots of an Arrow float buffer through ctypes)', needs='values in a single-chunk polars Series or a pandas ArrowDtype Series AND float32/float64 AND at least one real Arrow null (validity bitmap) AND any operation converting values through _val_to_numpy',
+   detected_by={'C19': 'MISSED as generated before: Arrow-backed containers carried NaN as values, never validity-bitmap nulls. Containers polars_nulls / pandas_arrow_nulls added (null slots hold a finite filler in a caller-owned, fingerprinted buffer). Now yes (inputs_unchanged and task_wrote_argument on cumsum, transform reductions, apply)'}),
 })
 for id_, m in META.items():
     d=f'{ROOT}/{id_}'
